@@ -64,6 +64,13 @@ type Check interface {
 	Assumptions() []string
 }
 
+// CrashJudge is implemented by checks for which the death of the process under
+// test is an expected trigger (a panic injected into a library goroutine that
+// re-panics by design): the driver hands over the journal of the dead worker.
+type CrashJudge interface {
+	JudgeCrash(journal, panicVal, stack string) (handled bool, v *Violation)
+}
+
 // Optional interface: checks that want to post-process merged results.
 type Finalizer interface {
 	// Finalize may inspect merged counters and return an error text if the
@@ -776,6 +783,21 @@ func runBatch(c Check, o DriverOpts, scratch string, b Batch, m *Merged, mu *syn
 	}
 	// crashed
 	val, stack := extractPanic(stderr)
+	if cj, ok := c.(CrashJudge); ok && val != "" {
+		if handled, v := cj.JudgeCrash(jdesc, val, stack); handled {
+			m.Counts["evaluations"]++
+			m.Counts["expected_process_deaths_judged"]++
+			h := fnv.New64a()
+			h.Write([]byte(jdesc))
+			m.Hashes[h.Sum64()] = struct{}{}
+			if v != nil {
+				v.Property, v.Batch, v.Seed = c.ID(), b.Name, b.Seed
+				m.Viols = append(m.Viols, *v)
+				m.VKeys[v.Key]++
+			}
+			return
+		}
+	}
 	if val == "" {
 		m.Broken = append(m.Broken, fmt.Sprintf("worker for batch %s exited (%v) without result and without panic: %s", b.Name, werr, clip(stderr, 500)))
 		return
